@@ -55,7 +55,7 @@ def main():
             if rc == 0:
                 res["applied_with_3way"] = True
             else:
-                sh(["git", "-C", wt, "checkout", "-q", "--", "."])
+                sh(["git", "-C", wt, "reset", "-q", "--hard", "HEAD"])
         if rc != 0 and base:
             # /repo moved on (fix: commits) and the patch no longer applies to HEAD: use the commit it was made against
             sh(["git", "-C", wt, "checkout", "-q", "--detach", base])
